@@ -87,3 +87,63 @@ Proof.
   intros K Hok Hh Hc. destruct (cinv_alphabet dbg u K Hok Hh) as (A & pth & Z & E & _ & HA & HZ & _ & HP).
   rewrite E. apply Forall_app. split; [exact HA|]. apply Forall_app. split; [exact (HP Hc) | exact HZ].
 Qed.
+
+(* ---------- along CReach3 ---------- *)
+From RU Require Import Proofs.C05_Setters Proofs.C05_History Proofs.C04_ParseTotal Proofs.C03_ReachParts
+  Proofs.C05_CompHist Proofs.C05_CompSteps2 Proofs.C05_CompReach Proofs.C05_BaseOk Proofs.C05_CompSteps3.
+
+(* address values are displayed inside 0x21..0x7E (C05's IpOK restricted to Ipv4Addr / Ipv6Addr values) *)
+Definition IpOKv (hd : host -> list N) : Prop := forall h, ip_arg h -> Forall ok_byte (hd h).
+
+Section Reach3.
+Variable dbg : bool.
+Variable hp hpo : list N -> result host.
+Variable hd : host -> list N.
+Hypothesis HW : HostWf hp hpo hd.
+Hypothesis HOK : HostOK hp hpo hd.
+Hypothesis HI : IpDisp hd.
+Hypothesis HV : IpOKv hd.
+
+Lemma apply_op_oks3 u o u' : step_gate3 hp hpo hd u o u' -> apply_op dbg hp hpo hd u o = Some u' ->
+  Forall ok_or_space (ser u) -> Forall ok_or_space (ser u').
+Proof using HOK HV.
+  intros G H Hs. change (okl ok_or_space (ser u')). change (okl ok_or_space (ser u)) in Hs.
+  destruct o; cbn [apply_op] in H; try (apply drop_status_some in H; destruct H as [st H]).
+  - eapply set_fragment_okl; [exact ok_byte_or_space | eassumption ..].
+  - eapply set_query_okl; [exact ok_byte_or_space | eassumption ..].
+  - eapply set_path_okl; [exact ok_byte_or_space | exact ok_or_space_32 | eassumption ..].
+  - eapply set_port_okl; [exact ok_byte_or_space | eassumption ..].
+  - eapply set_host_okl; [exact ok_byte_or_space | exact HOK | eassumption ..].
+  - eapply set_ip_host_okl; [exact ok_byte_or_space | | exact H | exact Hs].
+    apply (okl_ok _ ok_byte_or_space). apply HV. exact (proj1 G).
+  - eapply set_password_okl; [exact ok_byte_or_space | eassumption ..].
+  - eapply set_username_okl; [exact ok_byte_or_space | eassumption ..].
+  - eapply set_scheme_okl; [exact ok_byte_or_space | eassumption ..].
+  - eapply path_segments_session_okl; [exact ok_byte_or_space | eassumption ..].
+  - eapply q_set_protocol_okl; [exact ok_byte_or_space | eassumption ..].
+  - eapply q_set_username_okl; [exact ok_byte_or_space | eassumption ..].
+  - eapply q_set_password_okl; [exact ok_byte_or_space | eassumption ..].
+  - eapply q_set_host_okl; [exact ok_byte_or_space | exact HOK | eassumption ..].
+  - eapply q_set_hostname_okl; [exact ok_byte_or_space | exact HOK | eassumption ..].
+  - eapply q_set_port_okl; [exact ok_byte_or_space | eassumption ..].
+  - eapply q_set_pathname_okl; [exact ok_byte_or_space | exact ok_or_space_32 | eassumption ..].
+  - eapply q_set_search_okl; [exact ok_byte_or_space | eassumption ..].
+  - eapply q_set_hash_okl; [exact ok_byte_or_space | eassumption ..].
+Qed.
+
+Theorem creach3_oks u : CReach3 dbg hp hpo hd u -> Forall ok_or_space (ser u).
+Proof using HOK HV.
+  induction 1 as [ovr input u Hp | ovr b input u Rb IHb Hb Hp | u o u' R IH G H].
+  - exact (parse_url_okl ok_or_space ok_byte_or_space dbg hp hpo hd ovr HOK None input u (fun _ => ok_or_space_32) Hp I).
+  - exact (parse_url_okl ok_or_space ok_byte_or_space dbg hp hpo hd ovr HOK (Some b) input u (fun _ => ok_or_space_32) Hp IHb).
+  - exact (apply_op_oks3 u o u' G H IH).
+Qed.
+
+(* the first sentence of the property text for every record of CReach3 whose stored host text has no space *)
+Theorem creach3_alphabet u : CReach3 dbg hp hpo hd u ->
+  (has_host u = true -> ~ In 32 (piece u (host_start u) (host_end u))) -> alphabet_ok u.
+Proof using HW HOK HI HV.
+  intros R Hh. exact (cinv_alphabet dbg u (creach3_cinv dbg hp hpo hd HW HI u R) (creach3_oks u R) Hh).
+Qed.
+
+End Reach3.
